@@ -129,6 +129,10 @@ func main() {
 
 func doPackage(repo, dir, out string, rules []*rule, overlay map[string]string) (err error) {
 	abs := filepath.Join(repo, dir)
+	if filepath.IsAbs(dir) {
+		abs = dir
+		dir = filepath.Join("_abs", filepath.Base(dir))
+	}
 	ents, err := os.ReadDir(abs)
 	if err != nil {
 		return err
